@@ -137,8 +137,8 @@ func (b *Built) Run(cmds []Cmd) ([]Res, string) {
 	idx := 0
 	for _, c := range cmds {
 		switch c.Op {
-		case "CKS":
-			fmt.Fprintf(&sb, "CKS %s\n", c.Arg)
+		case "CKS", "REUSE":
+			fmt.Fprintf(&sb, "%s %s\n", c.Op, c.Arg)
 		default:
 			arg := c.Arg
 			if c.Op == "DEC" && arg == "" {
@@ -206,7 +206,7 @@ func (b *Built) Run(cmds []Cmd) ([]Res, string) {
 	}
 	crash := ""
 	for i := range cmds {
-		if cmds[i].Op != "CKS" && !seen[i] {
+		if cmds[i].Op != "CKS" && cmds[i].Op != "REUSE" && !seen[i] {
 			crash = fmt.Sprintf("driver process died (exit %d signal %q) before answering command %d: %s", r.Exit, r.Signal, i, clipS(string(r.Stderr), 600))
 			break
 		}
